@@ -264,6 +264,10 @@ def mutate_type(rng, t):
 def malform_type(rng, t):
     """something that is not a type at all: eval raises TypeError / SyntaxError / AttributeError"""
     c = rng.random()
+    if c < 0.08:
+        return ('raw', rt(t) + ' or')
+    if c < 0.14:
+        return ('raw', 'int.foo')
     if c < 0.2:
         return ('raw', rt(t) + ']')
     if c < 0.35:
@@ -404,6 +408,10 @@ def edits_of(rng, f, tier):
         out.append(('change_type_last', doc(ps[:i] + [[ps[i][0], nt]] + ps[i + 1:]), 'oracle', dep))
         i = rng.randrange(len(ps))
         out.append(('untype_param', doc(ps[:i] + [[ps[i][0], None]] + ps[i + 1:]), 'pdoc', 0))
+    stars = {p['name']: ('*' if p['kind'] == 'varargs' else '**') for p in f['params'] if p['kind'] in ('varargs', 'varkw')}
+    for i, (nm, t) in enumerate(ps):
+        if nm in stars:   # the Google form `*args (int)`: documents a parameter called "*args", not the annotated "args"
+            out.append(('star_prefixed_name', doc(ps[:i] + [[stars[nm] + nm, t]] + ps[i + 1:]), 'pdoc', 0))
     i = rng.randrange(len(ps) + 1)
     new = fresh_name(rng, [p[0] for p in ps])
     out.append(('add_param', doc(ps[:i] + [[new, gen_type(rng, 1)]] + ps[i:]), 'pdoc', 0))
@@ -445,9 +453,9 @@ def malformed_of(rng, f):
     out.append(('no_sections', doc(params=[], returns=None), 'oracle', 0))
     if ps:
         i = rng.randrange(len(ps))
-        out.append(('malformed_type', doc(ps[:i] + [[ps[i][0], malform_type(rng, ps[i][1])]] + ps[i + 1:]), 'model', 0))
+        out.append(('malformed_type', doc(ps[:i] + [[ps[i][0], malform_type(rng, ps[i][1])]] + ps[i + 1:]), 'oracle', 0))
     if d['returns']:
-        out.append(('malformed_returns', doc(returns=[malform_type(rng, d['returns'][0])]), 'model', 0))
+        out.append(('malformed_returns', doc(returns=[malform_type(rng, d['returns'][0])]), 'oracle', 0))
     return out
 
 
@@ -475,7 +483,7 @@ def gen_cases(rng, tier, scale):
             cases.append(dict(base, kind='consistent_respelled', funcs=fs, expect='ok', depth=0))
         k = rng.randrange(len(funcs))
         variants = [(kd, dc, ex, dep, 'near-miss') for kd, dc, ex, dep in edits_of(rng, funcs[k], tier)]
-        variants += [(kd, dc, ex, dep, 'malformed') for kd, dc, ex, dep in malformed_of(rng, funcs[k]) if rng.random() < 0.5 or (kd == 'no_sections' and mode == 'pedantic')]
+        variants += [(kd, dc, ex, dep, 'malformed') for kd, dc, ex, dep in malformed_of(rng, funcs[k]) if rng.random() < 0.5 or kd.startswith('malformed') or (kd == 'no_sections' and mode == 'pedantic')]
         for kd, dc, ex, dep, sub in variants:
             fs = [dict(g) for g in funcs]
             fs[k] = dict(funcs[k], doc=dc)
@@ -585,8 +593,9 @@ def texpr_of(node):
         return f'(EList {coq_list([texpr_of(e) for e in node.elts])})'
     if isinstance(node, ast.BinOp) and isinstance(node.op, ast.BitOr):
         return f'(EOr {texpr_of(node.left)} {texpr_of(node.right)})'
-    if isinstance(node, ast.Attribute) and isinstance(node.value, ast.Name) and node.value.id == 'typing':
-        return f'(EAttr (EName "typing") {cstr(node.attr)})'      # `typing` is not a name in any of the namespaces involved
+    if isinstance(node, ast.Attribute) and isinstance(node.value, ast.Name) and (node.value.id == 'typing' or node.attr == 'foo'):
+        # `typing` is not a name in any of the namespaces involved (NameError); no object of the vocabulary has an attribute `foo`
+        return f'(EAttr (EName {cstr(node.value.id)}) {cstr(node.attr)})'
     raise OutOfFragment('expression node ' + type(node).__name__)
 
 
@@ -655,8 +664,8 @@ def expected_for(fl, raw, returns_kind=None):
         if returns_kind not in (None, 'returns', 'return'):
             return None      # a Yields entry with the type of the annotation stands in for the Returns entry: not judged
         return 'ok' if fl['no_typing_dot'] else None
-    if not fl['doc_evaluable']:
-        return None
+    # since eaebe0b a documented type that cannot be evaluated at all (not an expression, wrong number of type arguments ...)
+    # is a differently typed entry like any other: PedanticDocstringException is demanded
     return 'pdoc'
 
 
@@ -763,7 +772,7 @@ def judge_typing(c, impl, model, names):
 
 
 # ------------------------------------------------------------------------------------------------
-# known findings (both C19 findings are fixed in /repo: d123a44, 2108a61; the matchers only serve entries that are re-opened)
+# known findings (all C19 findings are fixed in /repo: d123a44, 2108a61, eaebe0b; the matchers only serve entries that are re-opened)
 def matcher(finding, case):
     m = finding.get('matcher', {}).get('id')
     flags = case.get('_flags') or []
